@@ -392,6 +392,36 @@ PROPS = {
                      "segments passed to NewBlockReader are non-nil",
                      "unicode/utf8.DecodeRune/RuneStart are modelled from their documentation and validated differentially (component util)"],
     ),
+    "C02": dict(
+        level="other",
+        module="GM.Props.C02",
+        claim="Partial, by design. The property itself - goldmark's HTML for every constructed document equals the HTML the specification "
+              "prescribes - is a statement about the unmodelled block/inline parsers; it is decided by CORRESPONDENCE between a Lean spec-side "
+              "executable model (annotated document trees, every licensed surface spelling, the prescribed HTML; written from the CommonMark "
+              "0.31.2 text, not from goldmark's code) and the implementation: the model's Markdown is converted by the real library "
+              "(WithUnsafe, WithXHTML) and compared byte for byte with the model's HTML (up to a newline before a closing container tag / at "
+              "the end, which the spec's own comparison ignores). Kernel-checked: the escape-spelling axis as a law of the modelled text writer "
+              "(Write(escSpell c s) = RawWrite(s) for ALL printable-ASCII strings and ALL per-character choices of literal / backslash / "
+              "decimal / hex / named-entity spelling, entity names checked against the table regenerated from /repo), tag balance of the "
+              "expected HTML of every tree, independence of the expected HTML from every spelling choice.",
+        note="Trusted: Lean kernel (+ propext, Classical.choice, Quot.sound); the spec-side model GM.Spec.CommonMark as a reading of the "
+             "specification (its wellFormed side conditions were triaged against spec.json's examples; see notes/status_C02.md); the Lean "
+             "compiler/runtime for the generator; the harness. Not proved: any statement about the parsers. Known deviation reported under its "
+             "own clause: tabs in list-item continuation indentation (KNOWN_FINDINGS).",
+        technique="Lean 4 spec-side generator (trees x choices -> Markdown, prescribed HTML) + differential run against the real library; "
+                  "Lean theorems for the escape-spelling law over the writer model; spec examples x licensed rewrites",
+        components=["cmspec"],
+        explanation="Component cmspec: (1) the driver enumerates the exhaustive small scope (families of trees of depth <= 2 x every value of "
+                    "their choice axes: escapes of all 95 printable characters, ATX/Setext, fences, thematic breaks, list markers/offsets/"
+                    "tightness, ordered starts, link styles/label variants/titles, emphasis delimiters and contexts, code spans, adjacent "
+                    "block pairs, tab modes, final newline) and generates random trees of growing size; goldmark converts each spelling and "
+                    "the HTML is compared with the model's expected HTML; (2) the 652 spec examples under 6 licensed rewrites (extra/missing "
+                    "final newline, paragraph or thematic break before/after) compared with spec.json's HTML plus the added block, for the "
+                    "examples goldmark renders byte-identically and where the rewrite is safe. Theorems: escSpell_decodes(_any), "
+                    "escHtml_eq_rawWrite, expected_balanced, spell_choice_independent_expected.",
+        assumptions=["the Lean model GM.Spec.CommonMark is a correct reading of CommonMark 0.31.2 on wellFormed trees (it is the specification side of the comparison)",
+                     "GM.Model.Writer models defaultWriter.Write (tied by component render under C10)"],
+    ),
 }
 
 # Properties not claimed yet, with the reason shown in MANIFEST.not_applicable.
